@@ -1139,4 +1139,157 @@ example : ((sysRun exD (zeros stackSize) [⟨.plain .I, 5, false⟩] emptySys
     = [.loaded .ok, .hvar .ok, .loaded .ok, .hvar (.value 5), .hvar (.value 9), .dict (.r0 0), .dict .els,
        .dict (.found [7, -5, -6])] := by decide +kernel
 
+/-! ### the objects Python keeps are values of their own
+
+"An entry inserted or modified on one side is found with the same member values on the other": the `Value`
+Python got for one key keeps showing that entry's members whatever Python looks up, pops, iterates or stores
+afterwards, on this or any other program.  On the model: the heap of kept objects only grows at its end, an
+object changes only when *it* is modified, and operations on kept objects do nothing to the kernel maps
+except for an explicit store, which is a `table[k] = v` of the members the object shows. -/
+
+section Kept
+variable (D : DictDecl) (stack0 : Bytes) (vars : List HVar)
+
+def _root_.Ebv.HashVars.POp.touchesVal : POp → Bool
+  | .modVal _ _ _ => true
+  | _ => false
+
+def _root_.Ebv.HashVars.POp.touchesKey : POp → Bool
+  | .modKey _ _ _ => true
+  | _ => false
+
+theorem modObj_length (fs : List Fmt) (objs : List Bytes) (i j : Nat) (x : Int) :
+    (modObj fs objs i j x).1.length = objs.length := by
+  unfold modObj
+  split
+  · rfl
+  · simp
+
+/-- modifying object `i mod n` leaves every other kept object as it is -/
+theorem modObj_other (fs : List Fmt) (objs : List Bytes) (i j : Nat) (x : Int) (h : Nat) (hne : h ≠ i % objs.length) :
+    (modObj fs objs i j x).1[h]? = objs[h]? := by
+  unfold modObj
+  split
+  · rfl
+  · simp [List.getElem?_set, Ne.symm hne]
+
+/-- **kept_stable (one step)**: an operation that is not a modification of a kept value - any Dict or hash-variable
+operation on any program from either side, creations, restarts, re-examinations, stores, modifications of kept
+keys - leaves every kept value object exactly as it is; new objects are appended behind -/
+theorem pStep_vals_prefix (w : PState) (op : POp) (h : op.touchesVal = false) :
+    ∃ new, (pStep D stack0 vars w op).1.2.vals = w.2.vals ++ new := by
+  cases op with
+  | sys o =>
+    cases o with
+    | new j => exact ⟨[], by simp [pStep, Heap.keep]⟩
+    | dict j o => exact ⟨keptVals D (w.1 j).dict o, by simp [pStep, Heap.keep]⟩
+    | hvar j o => exact ⟨[], by simp [pStep, Heap.keep]⟩
+  | recheck => exact ⟨[], by simp [pStep]⟩
+  | modVal i j x => cases h
+  | modKey i j x => exact ⟨[], by simp [pStep]⟩
+  | store inst k i =>
+    refine ⟨[], ?_⟩
+    simp only [pStep]
+    split <;> simp
+
+theorem pStep_keys_prefix (w : PState) (op : POp) (h : op.touchesKey = false) :
+    ∃ new, (pStep D stack0 vars w op).1.2.keys = w.2.keys ++ new := by
+  cases op with
+  | sys o =>
+    cases o with
+    | new j => exact ⟨[], by simp [pStep, Heap.keep]⟩
+    | dict j o => exact ⟨keptKeys (w.1 j).dict o, by simp [pStep, Heap.keep]⟩
+    | hvar j o => exact ⟨[], by simp [pStep, Heap.keep]⟩
+  | recheck => exact ⟨[], by simp [pStep]⟩
+  | modVal i j x => exact ⟨[], by simp [pStep]⟩
+  | modKey i j x => cases h
+  | store inst k i =>
+    refine ⟨[], ?_⟩
+    simp only [pStep]
+    split <;> simp
+
+/-- **kept_stable**: over any sequence of operations without modifications of kept values, every value object
+Python holds at the start is still the same bytes at the end (and so shows the same members) -/
+theorem kept_stable : ∀ (ops : List POp) (w : PState), (∀ op ∈ ops, op.touchesVal = false) →
+    ∃ new, (pRun D stack0 vars w ops).1.2.vals = w.2.vals ++ new
+  | [], w, _ => ⟨[], by simp [pRun]⟩
+  | op :: ops, w, h => by
+    obtain ⟨n1, h1⟩ := pStep_vals_prefix D stack0 vars w op (h op (by simp))
+    obtain ⟨n2, h2⟩ := kept_stable ops (pStep D stack0 vars w op).1 (fun o ho => h o (by simp [ho]))
+    exact ⟨n1 ++ n2, by simp only [pRun]; rw [h2, h1, List.append_assoc]⟩
+
+theorem kept_keys_stable : ∀ (ops : List POp) (w : PState), (∀ op ∈ ops, op.touchesKey = false) →
+    ∃ new, (pRun D stack0 vars w ops).1.2.keys = w.2.keys ++ new
+  | [], w, _ => ⟨[], by simp [pRun]⟩
+  | op :: ops, w, h => by
+    obtain ⟨n1, h1⟩ := pStep_keys_prefix D stack0 vars w op (h op (by simp))
+    obtain ⟨n2, h2⟩ := kept_keys_stable ops (pStep D stack0 vars w op).1 (fun o ho => h o (by simp [ho]))
+    exact ⟨n1 ++ n2, by simp only [pRun]; rw [h2, h1, List.append_assoc]⟩
+
+/-- a modification changes the one object it names, nothing else -/
+theorem modVal_only_target (w : PState) (i j : Nat) (x : Int) (h : Nat) (hne : h ≠ i % w.2.vals.length) :
+    (pStep D stack0 vars w (.modVal i j x)).1.2.vals[h]? = w.2.vals[h]? ∧
+    (pStep D stack0 vars w (.modVal i j x)).1.2.keys = w.2.keys ∧
+    (pStep D stack0 vars w (.modVal i j x)).1.2.vals.length = w.2.vals.length := by
+  simp only [pStep]
+  exact ⟨modObj_other _ _ i j x h hne, trivial, modObj_length _ _ i j x⟩
+
+/-- looking at kept objects and modifying them does nothing to any program's maps -/
+theorem kept_ops_leave_maps (w : PState) (op : POp) (h : ∀ o, op ≠ .sys o) (hs : ∀ inst k i, op ≠ .store inst k i) :
+    (pStep D stack0 vars w op).1.1 = w.1 := by
+  cases op with
+  | sys o => exact absurd rfl (h o)
+  | recheck => rfl
+  | modVal i j x => rfl
+  | modKey i j x => rfl
+  | store inst k i => exact absurd rfl (hs inst k i)
+
+/-- on the kernel maps a wrapped operation is the operation: every theorem about `sysRun` applies -/
+theorem pStep_sys (w : PState) (op : SOp) :
+    (pStep D stack0 vars w (.sys op)).1.1 = (sysStep D stack0 vars w.1 op).1 ∧
+    (pStep D stack0 vars w (.sys op)).2 = .sys (sysStep D stack0 vars w.1 op).2 := ⟨rfl, rfl⟩
+
+/-- **kept_is_reported**: the object Python keeps from `table[k]` / `table.pop(k)` shows exactly the members the
+operation reported -/
+theorem kept_is_reported (m : KMap) (op : Op) (v : List Int) (hop : (∃ k, op = .pyGet k) ∨ (∃ k, op = .pyPop k))
+    (h : (cStep D stack0 m op).2 = .value v) :
+    (keptVals D m op).map (readMembers 0 D.valFmts) = [v] := by
+  rcases hop with ⟨k, rfl⟩ | ⟨k, rfl⟩ <;>
+  · simp only [cStep, keptVals] at h ⊢
+    cases hk : pyStruct D.keyFmts k with
+    | none => simp [hk] at h
+    | some kb =>
+      simp only [hk] at h
+      cases hl : lookup m kb with
+      | none => simp [hl] at h
+      | some vb =>
+        simp only [hl] at h
+        injection h with h
+        simp [keptValsAt, hl, h]
+
+/-- and the keys `list(table)` yields show the reported members -/
+theorem kept_keys_reported (m : KMap) :
+    (keptKeys m .pyIter).map (readMembers 0 D.keyFmts) = m.map fun e => readMembers 0 D.keyFmts e.1 := by
+  simp [keptKeys]
+
+/-- **store_is_set**: storing a kept object whose buffer is the image of the members `v` is `table[Key(k)] = Value(v)` -/
+theorem store_is_set (m : KMap) (k v : List Int) (vb : Bytes) (hv : pyStruct D.valFmts v = some vb) :
+    storeRaw D m vb (pyStruct D.keyFmts k) = cStep D stack0 m (.pySet k v) := by
+  cases hk : pyStruct D.keyFmts k with
+  | none => simp [storeRaw, cStep, hk]
+  | some kb => simp [storeRaw, cStep, hk, hv]
+
+end Kept
+
+/-- non-vacuity: two values and the keys are kept while the table goes on being used; nothing kept changes, the
+modified object changes alone, and the stored object arrives as the members it shows -/
+example : (pRun exD (zeros stackSize) [] (emptySys, emptyHeap)
+    [.sys (.new 0), .sys (.dict 0 (.pySet [1, 2, 3, 4] [7, -5, -6])), .sys (.dict 0 (.pySet [5, 6, 7, 8] [9, 1, 2])),
+     .sys (.dict 0 (.pyGet [1, 2, 3, 4])), .sys (.dict 0 (.pyGet [5, 6, 7, 8])), .sys (.dict 0 .pyIter), .recheck,
+     .modVal 0 1 44, .store 0 [5, 6, 7, 8] 0, .sys (.dict 0 (.pyGet [5, 6, 7, 8])), .recheck]).2
+    = [.sys (.loaded .ok), .sys (.dict .ok), .sys (.dict .ok), .sys (.dict (.value [7, -5, -6])), .sys (.dict (.value [9, 1, 2])),
+       .sys (.dict (.keys [[1, 2, 3, 4], [5, 6, 7, 8]])), .held [[7, -5, -6], [9, 1, 2]] [[1, 2, 3, 4], [5, 6, 7, 8]],
+       .ok, .stored .ok, .sys (.dict (.value [7, 44, -6])),
+       .held [[7, 44, -6], [9, 1, 2], [7, 44, -6]] [[1, 2, 3, 4], [5, 6, 7, 8]]] := by decide +kernel
+
 end Ebv.C09
